@@ -72,6 +72,43 @@ func Repl_WaitN(l *rate.Limiter, ctx context.Context, n int) error {
 	return nil
 }
 
+// ReserveN(t, n): takes n tokens at instant t (n < 0 gives tokens back); the reservation
+// tells how long to wait until they are there.
+var reservations map[*rate.Reservation]time.Duration
+var wall0 time.Time // wall-clock instant of virtual time 0 for this path
+
+//verif:replace (*golang.org/x/time/rate.Limiter).ReserveN
+func Repl_ReserveN(l *rate.Limiter, t time.Time, n int) *rate.Reservation {
+	b := buckets[l]
+	b.waits = append(b.waits, n)
+	at := vapi.Elapsed() - int64(time.Since(t)) // a stale t lies in the past
+	if at > b.last {
+		b.advance(at)
+	} else if at < b.last {
+		b.last = at // what x/time/rate does with a time that precedes its last update
+	}
+	b.tokens -= int64(n) * 1e9
+	r := &rate.Reservation{}
+	var d time.Duration
+	if b.tokens < 0 && b.rate > 0 {
+		d = time.Duration((-b.tokens + b.rate - 1) / b.rate)
+	}
+	if reservations == nil {
+		reservations = map[*rate.Reservation]time.Duration{}
+	}
+	reservations[r] = d
+	return r
+}
+
+//verif:replace (*golang.org/x/time/rate.Reservation).OK
+func Repl_ResOK(r *rate.Reservation) bool { return true }
+
+//verif:replace (*golang.org/x/time/rate.Reservation).Delay
+func Repl_ResDelay(r *rate.Reservation) time.Duration { return reservations[r] }
+
+//verif:replace (*golang.org/x/time/rate.Reservation).DelayFrom
+func Repl_ResDelayFrom(r *rate.Reservation, t time.Time) time.Duration { return reservations[r] }
+
 // ---- scenario ---------------------------------------------------------------------------
 type cfg struct {
 	rps, burst, trps, tburst int
